@@ -11,9 +11,6 @@
 use super::*;
 use std::collections::VecDeque;
 
-/// the linked formula weighs the volume with the typical price ("money flow"); set to `false` to get the
-/// plain volume flow the implementation sums (used only to look at the remaining discrepancies)
-const MONEY_FLOW_USES_PRICE: bool = true;
 
 #[derive(Clone, Copy)]
 struct Bar {
@@ -39,9 +36,18 @@ pub struct Mfi {
 	prev_defined: bool,
 	x_upper: CrossD,
 	x_lower: CrossD,
+	/// implementation reading (recorded discrepancies): sums plain volume instead of tp*volume, and answers
+	/// 0.5 whenever the negative flow of the window is exactly zero
+	follow_impl: bool,
 }
 
 pub fn make(cfg: &Cfg, c0: &RC) -> Option<Box<dyn IndRef>> {
+	build(cfg, c0, false)
+}
+pub fn make_alt(cfg: &Cfg, c0: &RC) -> Option<Box<dyn IndRef>> {
+	build(cfg, c0, true)
+}
+fn build(cfg: &Cfg, c0: &RC, follow_impl: bool) -> Option<Box<dyn IndRef>> {
 	let n = cfg.int("period");
 	if n == 0 {
 		// the documented range of `period` starts at 2
@@ -61,6 +67,7 @@ pub fn make(cfg: &Cfg, c0: &RC) -> Option<Box<dyn IndRef>> {
 		prev_defined: false,
 		x_upper: CrossD::new(f64::NAN),
 		x_lower: CrossD::new(f64::NAN),
+		follow_impl,
 	}))
 }
 
@@ -73,7 +80,7 @@ impl IndRef for Mfi {
 		let tol = 8.0 * crate::eps() * s.abs().max(p.abs());
 		let ambiguous = s != p && (s - p).abs() <= tol;
 		let dir = if s > p { 1 } else if s < p { -1 } else { 0 };
-		let (mf, zero) = if MONEY_FLOW_USES_PRICE { (c.tp() * Q::exact(c.v), c.v == 0.0 || s == 0.0) } else { (Q::exact(c.v), c.v == 0.0) };
+		let (mf, zero) = if !self.follow_impl { (c.tp() * Q::exact(c.v), c.v == 0.0 || s == 0.0) } else { (Q::exact(c.v), c.v == 0.0) };
 		self.mag = self.mag.max(mf.v.abs());
 		self.bars.push_back(Bar { dir, ambiguous, mf, zero });
 		while self.bars.len() > self.n {
@@ -88,6 +95,11 @@ impl IndRef for Mfi {
 		// exact predicate: no bar of the window carries a flow in either direction -> 0/0
 		let no_flow = self.bars.iter().all(|b| b.dir == 0 || b.zero);
 		self.defined = !undecided && !no_flow;
+		if self.follow_impl && !undecided && self.bars.iter().all(|b| b.dir != -1 || b.zero) {
+			// implementation reading: negative flow exactly zero -> ratio 1 -> 0.5
+			self.defined = true;
+			return vec![upper, Q::exact(0.5), lower];
+		}
 		if !self.defined {
 			return vec![upper, Q::undefined(), lower];
 		}
